@@ -496,6 +496,18 @@ pub fn run_case(lines: &[String], driver: Option<&std::path::Path>, tables: &Tab
                     res.hit(if ok { "op:fixture" } else { "op:fixture-skipped" });
                 }
             }
+            Op::Fault(k) => {
+                if let Some(w) = world.as_mut() {
+                    w.arm_fault(*k);
+                    res.hit("op:fault");
+                    if let Some(m) = model.as_mut() {
+                        let out = m.ask(line);
+                        if out != "ok" {
+                            res.disagreements.push(("fault op rejected by the model".into(), i, out, "ok".into()));
+                        }
+                    }
+                }
+            }
             Op::Restart | Op::Crash => {
                 let Some(w) = world.as_mut() else { continue };
                 let crash = matches!(op, Op::Crash);
